@@ -85,6 +85,10 @@ def handle (req : Sexp) : Sexp :=
       | some m => Sexp.ofBool (maskSafe ss m)
       | none => bad
     | _, _ => bad
+  | .list [.atom "rename", ss, .atom x, .atom z] =>
+    match stmts? ss with
+    | some ss => .list ((renameStmts x z ss).map Stmt.toSexp)
+    | _ => bad
   | .list [.atom "unused", syms, ps, ds] =>
     match symList? syms, ps.asList?, ds.asList? with
     | some syms, some ps, some ds =>
